@@ -27,6 +27,7 @@ from fdlstatic.ctx import Ctx
 from fdlstatic.model import (ClassInfo, FuncInfo, Module, unparse,
                              walk_function)
 
+MAX_FACTS = 12
 MAX_DEPTH = 3
 INTERNALS = ('__arguments__', '__argument_tags__', '__argument_history__',
              '__dict__')
@@ -274,6 +275,9 @@ class Summary:
 
   def __init__(self):
     self.mut: Dict[Tuple, Fact] = {}
+    # every distinct sink per (origin, level), so that an accepted sink never
+    # hides another one acting on the same input (capped)
+    self.all: Dict[Tuple, List[Fact]] = {}
     self.ret: AV = FRESH
     self.env_join: Dict[str, AV] = {}
     self.self_fields: Dict[str, AV] = {}
@@ -282,6 +286,8 @@ class Summary:
 
   def signature(self):
     return (frozenset(self.mut), self.ret,
+            frozenset((k, tuple(sorted(f.chain[-1] for f in v)))
+                      for k, v in self.all.items()),
             frozenset(self.env_join.items()),
             frozenset(self.self_fields.items()),
             frozenset(self.flows.items()))
@@ -348,6 +354,12 @@ class Own:
     summ.ret = cap(join(summ.ret, a.ret))
     for k, fct in a.facts.items():
       summ.mut.setdefault(k, fct)
+    for k, fcts in a.all_facts.items():
+      have = summ.all.setdefault(k, [])
+      for fct in fcts:
+        if len(have) < MAX_FACTS and all(
+            h.chain[-1] != fct.chain[-1] for h in have):
+          have.append(fct)
     for k, v in a.flows.items():
       summ.flows[k] = summ.flows.get(k, frozenset()) | v
     for k, v in a.self_fields.items():
@@ -368,6 +380,7 @@ class FuncAnalysis:
     self.summ = summ
     self.recording = False
     self.facts: Dict[Tuple, Fact] = {}
+    self.all_facts: Dict[Tuple, List[Fact]] = {}
     self.flows: Dict[object, FrozenSet] = {}
     self.self_fields: Dict[str, AV] = {}
     self.ret: AV = FRESH
@@ -475,9 +488,17 @@ class FuncAnalysis:
       self.sites[what] = self.sites.get(what, False) or hit
       for origin, lvl in recv.direct:
         k = (origin, lvl)
+        fct = Fact(origin, lvl, (
+            f'{self.f.qualname} @ {self.loc(node)}: {what}',))
         if k not in self.facts:
-          self.facts[k] = Fact(origin, lvl, (
-              f'{self.f.qualname} @ {self.loc(node)}: {what}',))
+          self.facts[k] = fct
+        self._add_fact(k, fct)
+
+  def _add_fact(self, k, fct):
+    have = self.all_facts.setdefault(k, [])
+    if len(have) < MAX_FACTS and all(
+        h.chain[-1] != fct.chain[-1] for h in have):
+      have.append(fct)
 
   def access_path(self, e):
     """(root name, [keys]) for a.b[c].d -> ('a', ['b', '*', 'd'])."""
@@ -974,12 +995,14 @@ class FuncAnalysis:
       hit = self.level_of(a, lvl).direct
       self.sink_count += 1
       if self.recording:
+        here = (f'{self.f.qualname} @ {self.loc(call)}: call '
+                f'`{unparse(call.func)[:50]}(...)`',)
         for o, l in hit:
           k = (o, l)
           if k not in self.facts:
-            self.facts[k] = Fact(o, l, (
-                f'{self.f.qualname} @ {self.loc(call)}: call '
-                f'`{unparse(call.func)[:50]}(...)`',) + fct.chain)
+            self.facts[k] = Fact(o, l, here + fct.chain)
+          for other in s.all.get((origin, lvl), [fct]):
+            self._add_fact(k, Fact(o, l, here + other.chain))
     for dst, srcs in s.flows.items():
       if isinstance(dst, int):
         add = frozenset()
